@@ -10,6 +10,7 @@ Fails(r) ==
      /\ r.text = Display(r.kind, r.v)
      /\ r.back = r.v                                  \* Display then parse
      /\ r.generic = r.v /\ r.generic_l = r.v          \* RFC 3597 form for every value, prefix caseless
+     /\ r.generic_m = <<r.v, r.v>>                     \* ... in any mixture of cases ("tYpE12", "Class3")
      /\ r.upper = r.v /\ r.lower = r.v /\ r.mixed = r.v
      /\ \A i \in 1..Len(r.bad) : r.bad[i] = -1)
   ELSE IF r.ev = "Mnemonic" THEN Chk("C17",
